@@ -158,6 +158,49 @@ def handler_coverage_corpus():
     add("task-merged-output-too-big-caught", chain(("A", Task("f1", ResultPath="$.r", Catch=CATCH_ALL)), Z), workers={"f1": {"*": [["okstr", 100000]]}}, input=big)
     add("pass-output-too-big", chain(("A", Pass(Result="y" * 100000, ResultPath="$.r")), Z), input=big)
     add("parallel-output-too-big-caught", chain(("P", Parallel([chain(("A", Pass(Result="y" * 100000))), chain(("B", Pass(Result=2)))], ResultPath="$.r", Catch=CATCH_ALL)), Z), input=big)
+    # every filter of every state type failing in each way it can fail, unhandled and caught: each of these takes its own
+    # except-clause in the state's handler (error reported, then the state's event acknowledged), on the way in or - for Task,
+    # Parallel and Map - in the continuation that runs when the reply / the last branch result arrives
+    BADP, BADI = {"x.$": "$.missing"}, {"x.$": "States.Nope(1)"}
+    fails = (("inputpath", {"InputPath": "$.missing"}), ("params-path", {"Parameters": BADP}), ("params-intrinsic", {"Parameters": BADI}),
+             ("selector-path", {"ResultSelector": BADP}), ("selector-intrinsic", {"ResultSelector": BADI}),
+             ("resultpath", {"ResultPath": "$.a.b"}), ("resultpath-context", {"ResultPath": "$$.x"}), ("outputpath", {"OutputPath": "$.missing"}))
+    makers = (("task", lambda kw: Task("f1", **kw)), ("invoke", lambda kw: Invoke("f1", **kw)),
+              ("parallel", lambda kw: Parallel([br("A1", "f1"), chain(("B1", Pass(Result=2)))], **kw)),
+              ("map", lambda kw: Map(it, ItemsPath="$.items", **kw)), ("pass", lambda kw: Pass(Result={"r": 1}, **kw)))
+    for sname, mk in makers:
+        for fname, kw in fails:
+            if sname == "pass" and fname.startswith("selector"):
+                continue
+            if sname == "map" and fname.startswith("params"):
+                kw = {"ItemSelector": kw["Parameters"]}
+            if sname == "invoke" and fname.startswith("params"):
+                kw = {"Parameters": {"FunctionName": fn_arn("f1"), "Payload.$": kw["Parameters"]["x.$"]}}
+            for handled in ("", "-caught", "-retried"):
+                if handled and sname == "pass":
+                    continue
+                kw2 = dict(kw)
+                if handled == "-caught":
+                    kw2["Catch"] = CATCH_ALL
+                if handled == "-retried":
+                    kw2["Retry"] = [{"ErrorEquals": ["States.ALL"], "IntervalSeconds": 1, "MaxAttempts": 1}]
+                add("%s-%s-fails%s" % (sname, fname, handled), chain(("S", mk(kw2)), Z),
+                    workers={"f1": {"*": [["echo"]]}}, input={"a": 5, "items": [1, 2]})
+    # an ItemSelector that fails for a later item only (after earlier iterations would have been launched / in a later batch)
+    for mc in (0, 1):
+        for handled, hk in (("", {}), ("-caught", {"Catch": CATCH_ALL})):
+            add("map-selector-fails-on-second-item-mc%d%s" % (mc, handled),
+                chain(("S", Map(it, ItemsPath="$.items", ItemSelector={"v.$": "$$.Map.Item.Value.x"}, MaxConcurrency=mc, **hk)), Z),
+                workers={"f1": {"*": [["echo"]]}}, input={"items": [{"x": 1}, {"y": 2}]})
+    for fname, kw in (("inputpath", {"InputPath": "$.missing"}), ("outputpath", {"OutputPath": "$.missing"})):
+        add("wait-%s-fails" % fname, chain(("S", Wait(1, **kw)), Z), input={"a": 5})
+        add("succeed-%s-fails" % fname, chain(("S", Succeed(**kw))), input={"a": 5})
+        add("choice-%s-fails" % fname, chain(("S", Choice([{"Variable": "$.a", "NumericEquals": 5, "Next": "Z"}], **kw)), Z), input={"a": 5})
+    # the same continuation failures inside a branch: the failure must reach the enclosing fan-out, once
+    add("branch-task-resultpath-fails", chain(("P", Parallel([chain(("A1", Task("f1", ResultPath="$.a.b"))), chain(("B1", Pass(Result=2)))])), Z),
+        workers={"f1": {"*": [["echo"]]}}, input={"a": 5})
+    add("branch-task-selector-fails-caught-outside", chain(("P", Parallel([chain(("A1", Task("f1", ResultSelector=BADI))), chain(("B1", Pass(Result=2)))], Catch=CATCH_ALL)), Z),
+        workers={"f1": {"*": [["echo"]]}}, input={"a": 5})
     add("unknown-state", {"StartAt": "A", "States": {"A": {"Type": "Pass", "Next": "Nope"}}})
     add("illegal-type", {"StartAt": "A", "States": {"A": {"Type": "Bogus", "End": True}}})
     add("express-pass", chain(("A", Pass(Result=1, ResultPath="$.a")), Z), typ="EXPRESS")
